@@ -755,7 +755,7 @@ def function_kind_family(ctx, prefix="C08", only_rules=None):
            ("constructor-super", "class A extends B { constructor() { ", " } }", "super();", None, None, "all-but-none"),
            ("require-yield", "function* o() { ", " }", "yield 1;", None, True, ()),
            ("require-await", "async function o() { ", " }", "await x;", True, None, ()),
-           ("no-unreachable", "function o() { return 1; ", " }", "h();", None, None, ()),
+           ("no-unreachable", "function o() { return 1; ", " }", "h();", None, None, ("fn-decl",)),   # the rule never reports a function DECLARATION (hoisted): specification
            ("no-unreachable", "", "", "return 1; h();", None, None, ()),
            ("no-unreachable", "function o() { ", " h(); }", "return 1;", None, None, ()),
            ("no-unreachable", "function o() { ", " h(); }", "throw e;", None, None, ()),
